@@ -1,6 +1,6 @@
 (* C11 - loaded-runner limit, one runner per model, reuse when compatible.   Theorems only. *)
 From Coq Require Import List ZArith NArith Bool Lia Arith.
-From V Require Import Sched.Lts Sched.Reach Sched.InvLock Sched.InvStruct Sched.InvCount Sched.Thm Sched.ThmVictim Sched.Refute Sched.Examples.
+From V Require Import Sched.Lts Sched.Reach Sched.InvLock Sched.InvStruct Sched.InvCount Sched.Thm Sched.ThmVictim Sched.ThmFit Sched.Refute Sched.Examples.
 Import ListNotations.
 
 (* Reuse: when the pending loop looks up a request's model and finds a runner, it goes on to needsReload for that
@@ -53,6 +53,24 @@ Proof.
   intros c m ls s ev l s' e mo res Hf H Hs Hin. eapply step_new_absent; eauto. eapply L2_Reach; eauto. eapply run_Reach; eauto.
 Qed.
 Print Assumptions C11_new_only_when_absent.
+
+(* Fit before start (any configuration).  newServerFn is called by one rule only, the one at program counter PNs;
+   in every reachable state a step after which a thread stands at PNs was taken by the pending loop either with
+   nothing registered in [loaded], or through the alternative in which the placement oracle (the model's
+   abstraction of pickBestFullFitByLibrary / PredictServerFit on the free memory left by updateFreeSpace) answered
+   "fits" - [fit_answer], Sched/ThmFit.v.  What the oracle stands for is tied to the code by the `no-fit-start`
+   monitor (independent llm.EstimateGPULayers computation at every newServerFn call), not by this theorem. *)
+Theorem C11_fit_before_start :
+  forall c m ls s ev0 t alt s' ev q p, run c (init_m m) ls = Some (s, ev0) ->
+  nth_error (thr s) t = Some p -> step c s (LRun t alt) = Some (s', ev) ->
+  nth_error (thr s') t = Some (PNs q) -> fit_answer s p alt.
+Proof. intros c m ls s ev0 t alt s' ev q p H. eapply fit_before_start. eapply run_Reach; eauto. Qed.
+Print Assumptions C11_fit_before_start.
+
+Theorem C11_new_only_at_newserver_rule :
+  forall c s t p alt s' ev m res, run_pc c s t p alt = Some (s', ev) -> In (ENew m res) ev -> exists q, p = PNs q.
+Proof. intros. eapply new_only_at_PNs; eauto. Qed.
+Print Assumptions C11_new_only_at_newserver_rule.
 
 Example C11_nonvacuous :
   fixed cfg_on /\ 1 <= c_ngpus cfg_on /\
